@@ -37,6 +37,30 @@ def parsePairs (a : Array Json) : Option Env :=
 
 def getEnv? (j : Json) (k : String) : Option Env := (getArr? j k).bind parsePairs
 
+def getOptInt? (j : Json) (k : String) : Option (Option Int) :=
+  match j.getObjVal? k with
+  | .ok Json.null => some none
+  | .ok v => (asInt? v).map some
+  | _ => none
+
+def parseAdapter (j : Json) : Option Adapter :=
+  match j.getObjVal? "adapter" with
+  | .error _ => some Adapter.plain
+  | .ok Json.null => some Adapter.plain
+  | .ok a => do
+    match ← getStr? a "kind" with
+    | "plain" => pure Adapter.plain
+    | "time" => do
+        let f ← getBool? a "formatted"
+        let b ← getS? a "bin"
+        pure (Adapter.time f b)
+    | "perf" => do
+        let c ← getS? a "command"
+        let ra ← getS? a "record_args"
+        let rp ← getS? a "report_args"
+        pure (Adapter.perf c ra rp)
+    | _ => none
+
 def parseRun (j : Json) : Option Run := do
   pure {
     benchCommand := ← getS? j "bench"
@@ -56,7 +80,8 @@ def parseRun (j : Json) : Option Run := do
     hasLocation := ← getBool? j "has_location"
     locationRaw := ← getOptStr? j "location"
     env := ← getEnv? j "env"
-    invocations := ← getNat? j "invocations" }
+    invocations := ← getNat? j "invocations"
+    adapter := ← parseAdapter j }
 
 def parseWorld (j : Json) : Option World := do
   pure {
@@ -74,6 +99,7 @@ def launchJson (l : Launch) : List (String × Json) :=
 
 def eventJson : Event → Json
   | .start run inv l => Json.mkObj ([("t", Json.str "start"), ("run", Json.num run), ("inv", Json.num inv)] ++ launchJson l)
+  | .report run inv l => Json.mkObj ([("t", Json.str "report"), ("run", Json.num run), ("inv", Json.num inv)] ++ launchJson l)
   | .append run inv => Json.mkObj [("t", Json.str "append"), ("run", Json.num run), ("inv", Json.num inv)]
   | .plan run cd cmd => Json.mkObj [("t", Json.str "plan"), ("run", Json.num run), ("cd", optStr cd), ("cmd", str cmd)]
   | .uiError run => Json.mkObj [("t", Json.str "ui_error"), ("run", Json.num run)]
@@ -82,6 +108,7 @@ def parseOutcome (j : Json) : Option Outcome :=
   match asStr? j with
   | some "ok" => some .ok
   | some "fail" => some .fail
+  | some "fail_report" => some .failReport
   | _ => none
 
 /-- sessions one after the other, the completed counters carried over -/
@@ -129,6 +156,11 @@ def handle (op : String) (j : Json) : Option Json :=
         pure (p, outs)))
       let evs := sessions w rs ss (rs.map (fun _ => 0))
       pure (Json.arr (evs.map (fun es => Json.arr (es.map eventJson).toArray)).toArray)
+  | "c03.time_decision" => do
+      let rc1 ← getOptInt? j "rc1"
+      let rc2 ← getOptInt? j "rc2"
+      let (f, b) := timeDecision rc1 rc2
+      pure (Json.mkObj [("formatted", Json.bool f), ("bin", str b)])
   | "c03.expand_user" => do
       let w ← (getObj? j "world").bind parseWorld
       let s ← getS? j "line"
